@@ -80,7 +80,8 @@ def run(ctx):
         sys.stderr.write(rp.out[-3000:])
         raise ToolError("DiskMgr with FIXED=FALSE no longer violates the accounting invariants (specification lost its teeth)")
     # ---- 2. sequential histories -> real DiskManager
-    gens = [dict(nf=2, t=1, maxops=5, maxh=3)] if ctx.quick else [dict(nf=3, t=1, maxops=6, maxh=3), dict(nf=2, t=1, maxops=5, maxh=3, lim0=2, sizes="{1, 3}", limits="{1, 3, 4}")]
+    gens = [dict(nf=2, t=1, maxops=5, maxh=3)] if ctx.quick else [dict(nf=3, t=1, maxops=5, maxh=3), dict(nf=2, t=1, maxops=6, maxh=3),
+                                                                  dict(nf=2, t=1, maxops=5, maxh=3, lim0=2, sizes="{1, 3}", limits="{1, 3, 4}")]
     histories = []
     for i, c in enumerate(gens):
         cfg = ctx.path(f"gen{i}.cfg")
@@ -90,6 +91,8 @@ def run(ctx):
         del r
         if not cs:
             raise ToolError("TLC produced no histories")
+        if len(cs) > 60000:       # thorough: the 6-operation set is sampled (seeded); the <=5-operation sets are complete
+            cs = ctx.rng.sample(cs, 60000)
         histories += cs
     exhaustive_n = len(histories)
     if ctx.quick:
